@@ -80,6 +80,11 @@ type Sim struct {
 	PanicTxt string
 	killed   bool
 	Start    time.Time
+	// inTask is 1 while a released task may be running (between the hand-off in
+	// Release and the return of synctest.Wait). Hooks reached from the scheduler
+	// goroutine itself (white-box reads that take the wrapped locks, enumerate
+	// shards ...) see 0 and return at once, without looking up a task identity.
+	inTask int32
 	// NotifySite: parks at this site are counted in Notifies and flagged on the
 	// task, for the engine to log from the scheduler goroutine (-1: none)
 	NotifySite int
@@ -145,7 +150,12 @@ func (s *Sim) self() *Task {
 // Self returns the calling task (nil on the scheduler goroutine).
 //
 //go:norace
-func (s *Sim) Self() *Task { return s.self() }
+func (s *Sim) Self() *Task {
+	if atomic.LoadInt32(&s.inTask) == 0 {
+		return nil
+	}
+	return s.self()
+}
 
 //go:norace
 func (s *Sim) register(t *Task) {
@@ -243,7 +253,7 @@ func park(t *Task) int {
 //go:norace
 func Yield(site int, key uint64) {
 	s := S
-	if s == nil {
+	if s == nil || atomic.LoadInt32(&s.inTask) == 0 {
 		return
 	}
 	t := s.self()
@@ -279,7 +289,7 @@ var NoUnlockYield int32
 //go:norace
 func MutexLocked() {
 	s := S
-	if s == nil {
+	if s == nil || atomic.LoadInt32(&s.inTask) == 0 {
 		return
 	}
 	if t := s.self(); t != nil {
@@ -290,7 +300,7 @@ func MutexLocked() {
 //go:norace
 func MutexUnlocked() {
 	s := S
-	if s == nil {
+	if s == nil || atomic.LoadInt32(&s.inTask) == 0 {
 		return
 	}
 	t := s.self()
@@ -432,8 +442,10 @@ func (s *Sim) Release(t *Task, gate int) {
 	t.Steps++
 	s.Step++
 	atomic.StoreInt32(&t.state, StRunning)
+	atomic.StoreInt32(&s.inTask, 1)
 	t.resume <- gate
 	synctest.Wait()
+	atomic.StoreInt32(&s.inTask, 0)
 }
 
 // Advance moves the simulated clock.
@@ -450,6 +462,8 @@ func (s *Sim) Advance(d time.Duration) {
 // tainted when any remain.
 func (s *Sim) KillAll() (leftBlocked int) {
 	s.killed = true
+	atomic.StoreInt32(&s.inTask, 1)
+	defer atomic.StoreInt32(&s.inTask, 0)
 	for round := 0; round < 8; round++ {
 		synctest.Wait()
 		any := false
